@@ -57,14 +57,14 @@ def one_run(exe, secs, workers, seed, variant):
             "seed": seed, "variant": variant, "asked": secs}
 
 
-def stress(run, plan=None):
+def stress(run, plan=None, errpaths=True):
     if plan is None:
         if run.tier == "quick":
             plan = [("tsan", 3, 2), ("tsan", 5, 8)]
         else:
             plan = [("tsan", 40, 2), ("tsan", 60, 4), ("tsan", 60, 8), ("base", 40, 8), ("base", 20, 3)]
     exes = {}
-    for v in sorted(set(p[0] for p in plan)):
+    for v in sorted(set(p[0] for p in plan) | ({"base"} if errpaths else set())):
         exes[v] = vlib.build_driver("h_lock_stress", ["h_lock_stress.c"], v)
     f3 = None
     for f in run.kf:
@@ -72,6 +72,23 @@ def stress(run, plan=None):
             f3 = f
     summary = []
     nviol = 0
+    # corpus first: error paths of API functions that take the lock themselves (C13-F4)
+    if errpaths:
+        v0 = "base" if "base" in exes else sorted(exes)[0]
+        try:
+            p = subprocess.run([exes[v0], "errpaths"], stdout=subprocess.PIPE, stderr=subprocess.PIPE, timeout=60)
+            out, rc = p.stdout.decode("latin-1"), p.returncode
+        except subprocess.TimeoutExpired as e:
+            out, rc = (e.stdout or b"").decode("latin-1"), -999
+        ok = rc == 0 and "errpaths ok" in out
+        run.count("stress errpaths", ok and "failed_call_released_lock=1" in out)
+        run.hist("kind", "stress-errpaths")
+        summary.append({"variant": v0, "mode": "errpaths", "ok": ok, "output": out.strip()[-300:]})
+        if not ok:
+            nviol += 1
+            run.violation("a failing API call leaves the global lock held: every other thread blocks for ever",
+                          "command: %s errpaths   (variant %s; see corpus/C13/errpaths.stress)\n\n%s\n" %
+                          (exes[v0], v0, out[-3000:]), tag="errpaths")
     for k, (variant, secs, workers) in enumerate(plan):
         seed = run.seed * 100 + k
         r = one_run(exes[variant], secs, workers, seed, variant)
